@@ -453,9 +453,15 @@ theorem AllDur_congr {st s' : St} (h : AllDur st) (h1 : s'.fs = st.fs) (h3 : s'.
 
 theorem mkPath_out (c : Cfg) (o : Bool) (t : String) (r : Nat) : (mkPath c o t r).out = o := rfl
 
-theorem inv_sealTail {c : Cfg} (io : Nat → Fault) (s1 : St) (f : File) (h : Inv c s1) (ha : AllDur s1) :
-    Inv c (sealTail c io s1 f) ∧ AllDur (sealTail c io s1 f) := by
+theorem inv_sealTail {c : Cfg} (io : Nat → Fault) (rd : Fault) (s1 : St) (f : File) (h : Inv c s1) (ha : AllDur s1) :
+    Inv c (sealTail c io rd s1 f) ∧ AllDur (sealTail c io rd s1 f) := by
   unfold sealTail
+  split
+  · -- the last byte cannot be read: append unsealed (F47b) or exit (committed F47)
+    split
+    · exact ⟨h, ha⟩
+    · have hd : Dead s1 (fatal s1) := ⟨by simp [fatal], rfl, rfl, rfl, rfl⟩
+      exact ⟨Inv_dead h hd, AllDur_dead hd⟩
   split
   · have h2 := inv_onOut (c := c) io s1 (fileWrite c.gzip [10]) (fileWrite_le c.gzip [10])
       (fun f l => Wr_write c.gzip [10] f l) h
@@ -497,8 +503,9 @@ theorem inv_openNew {c : Cfg} (io : Nat → Fault) (st : St) (fn : String) (h : 
           refine ⟨⟨by rw [e1, e2]; exact h.fin, ?_, fun hw _ => by rw [e5]; exact hwd hw⟩, ?_⟩
           · intro hr1 m hm; rw [e3] at hm; exact Or.inl (by rw [e1]; exact ha hr m hm)
           · intro hr1 m hm; rw [e3] at hm; rw [e1]; exact ha hr m hm
-        have k2 : ∀ s1 : St, Inv c s1 ∧ AllDur s1 → Inv c (sealTail c io s1 f) ∧ AllDur (sealTail c io s1 f) :=
-          fun s1 hh => inv_sealTail io s1 f hh.1 hh.2
+        have k2 : ∀ s1 : St, Inv c s1 ∧ AllDur s1 →
+            Inv c (sealTail c io (io st.tick) s1 f) ∧ AllDur (sealTail c io (io st.tick) s1 f) :=
+          fun s1 hh => inv_sealTail io _ s1 f hh.1 hh.2
         apply k2
         exact key _ rfl rfl rfl rfl rfl
 
